@@ -86,3 +86,17 @@ Theorem C03_glue_interval_loop : forall pw x y targets fixed r, length x = lengt
 Proof. exact glue_interval_loop. Qed.
 Print Assumptions C03_glue_interval_loop.
 Close Scope string_scope.
+
+(** ---- more bodies REGENERATED as glue terms and proved equal to the model (leaves: Model/GlueLeaves2.v) ---- *)
+From TW Require Import Model.GlueLeaves2 Gen.MatchGlue Gen.UtilsGlue Proofs.GlueMoreProofs.
+Open Scope string_scope.
+(** _integral_matching_stretch (no smoothing): method check, current integral, weights (the two-point special case), the rule
+    dispatch for y_hat, the final update — as regenerated — are the model's stretch_res, wherever the model's divisions are defined *)
+Theorem C03_glue_stretch_kernel : forall pw x y target r, x <> [] -> length x = length y ->
+  (r <> UnknownRule -> stretch_defined pw r x = true) ->
+  outcome_arr (call_fun kernel_callf kernel_methf no_apply (alpha_powf pw) match_functions "_integral_matching_stretch"
+     [("x", VArr x); ("y", VArr y); ("integral_value", VNum target); ("integral_method", VStrV (rule_name r)); ("alpha", VOpaque "alpha")])
+  = stretch_res pw r x y target.
+Proof. exact glue_stretch_kernel. Qed.
+Print Assumptions C03_glue_stretch_kernel.
+Close Scope string_scope.
